@@ -41,7 +41,9 @@ F64_BITS = [0x0, 0x8000000000000000, 0x1, 0x000fffffffffffff, 0x0010000000000000
             0x3ff0000000000000, 0x3fb999999999999a]
 
 UTF8_SAMPLES = ["", "a", "ab", "abc", "abcd", "hello world", "é", "€", "😀", "a\x00b", "ࠀ", "￿",
-                "\U00010000", "\U0010ffff", "Ünïcödé ✓ 漢字 😀", " ", "\n\t", "x" * 67]
+                "\U00010000", "\U0010ffff", "Ünïcödé ✓ 漢字 😀", " ", "\n\t", "x" * 67,
+                # U+0000 is a character like any other, also at the end (where it looks like padding on the wire)
+                "\x00", "abc\x00", "ab\x00\x00", "a\x00\x00\x00", "\x00mid\x00", " trailing space ", "\ufeffbom"]
 
 ADDR_SAMPLES = ["0.0.0.0", "255.255.255.255", "10.0.0.1", "127.0.0.1", "192.168.1.254", "1.2.3.4",
                 "::", "::1", "2001:db8::1", "fe80::1:2:3:4", "ffff:ffff:ffff:ffff:ffff:ffff:ffff:ffff",
